@@ -1,6 +1,7 @@
 package main
 
 import (
+	"encoding/json"
 	"flag"
 	"fmt"
 	"go/types"
@@ -40,6 +41,13 @@ func loadEngine(repo, specPath string) (*Engine, error) {
 		ufs: map[string]string{}, specDefs: map[string]string{}, specSig: map[string]*specSig{}, tagOf: map[string]int{}}
 	e.index()
 	e.buildModsets()
+	// recorded local names of the unchanged tree (rename tolerance)
+	if b, err := os.ReadFile(filepath.Join(verifDir(), "expected_obligations.json")); err == nil {
+		var base baselineFile
+		if json.Unmarshal(b, &base) == nil {
+			e.baseLocals = base.Locals
+		}
+	}
 	return e, nil
 }
 
